@@ -161,6 +161,8 @@ def run(pid, tier, seed, oracle_names, title, feats=None, check_c07=False, extra
     if not chk.builds(model=True, harness=True):
         return chk.finish()
     chk.proofs()
+    if pid in ("C03", "C05", "C07", "C08"):
+        chk.proofs("Units")     # nested units: conservative extension, defect witnesses N1/N2/N4/N7, units-move rollback
     nh, ns = (150, 25) if tier == "quick" else (4000, 600)
     nops = 30 if tier == "quick" else 60
     size = "small" if tier == "quick" else "medium"
